@@ -43,7 +43,7 @@ class SigClassifier(BaseClassifier):
         self._tick(("fit", self.sid, tuple(ids)))
         # an object that is fitted again (instead of a fresh clone per fold) betrays itself in its predictions
         self.nfit_ = getattr(self, "nfit_", 0) + 1
-        self.sig_ = sum(ids) + 1000 * (self.nfit_ - 1)
+        self.sig_ = sum(ids) + (self.nfit_ - 1)
         self.classes_ = np.unique(y)
         self._is_fitted = True
         return self
@@ -260,9 +260,10 @@ def run(ctx):
                                    "fits": sorted(o["fits"]), "preds": o["preds"], "calls": o["calls"],
                                    "crashed": o["crashed"], "honest": not o["dishonest"], "readable": bool(o["readable"])}})
             before = {"pred": o["pred"], "fitted": o["fitted"], "S": o["S"], "D": o["D"]}
+        for run_ in runs:
+            kinds.add((run_["crash"] > 0, run_["o"]["owp"]))
         for rn, (run_, o) in enumerate(zip(runs, obs), start=1):
             exp = expected_of(run_)
-            kinds.add((run_["crash"] > 0, run_["o"]["owp"]))
             got = {k_: o[k_] for k_ in exp}
             got["fits"] = sorted(got["fits"])
             if o["dishonest"]:
